@@ -604,7 +604,12 @@ class QuorumSensing:
         abstain_votes: list[Vote]
     ) -> QuorumResult:
         """Fixed threshold count (e.g., need exactly N permits)."""
-        threshold = int(self.custom_threshold or len(self.colony) // 2 + 1)
+        threshold = self.custom_threshold or len(self.colony) // 2 + 1
+        if 0 < threshold < 1:
+            # Fractional threshold (e.g. EmergencyQuorum's 0.3): a share of the
+            # colony, never less than one permit
+            threshold = max(1, math.ceil(threshold * len(self.colony) - 1e-9))
+        threshold = int(threshold)
 
         reached = len(permit_votes) >= threshold
         decision = VoteType.PERMIT if reached else VoteType.BLOCK
